@@ -299,7 +299,7 @@ def b_scale_free(spec):
         if mode == "corr_target":
             kw["corr_target"] = S.real("corr_target", lo=0.0, hi=1.0)
         elif mode == "shuffles":
-            kw["num_shuffles"] = small(S, "num_shuffles", 0, 1 if spec.get("q") else 2)
+            kw["num_shuffles"] = small(S, "num_shuffles", 0, 1 if (spec.get("q") or n >= 4) else 2)
         admissible = True
         if not correlated and (mode == "corr_target" or (mode == "shuffles" and kw["num_shuffles"] != 0)):
             admissible = False
